@@ -4,6 +4,7 @@ C01 — Frame round-trip fidelity (v1 and v2). Property theorems only.
 import OAP.Model.Frame
 import OAP.Proofs.Frame
 import OAP.Proofs.StreamComplete
+import OAP.Proofs.GenFuncsProto
 import OAP.Props.C02
 import OAP.Props.C09
 set_option linter.unusedSimpArgs false
@@ -336,5 +337,42 @@ example : ∃ b1 p1 b2 p2, pack .v2 idGz exPacket 0 = .ok (b1, p1) ∧ pack .v2 
       cases hq2 with
       | cons e1 ht => cases ht with
         | cons e2 ht2 => cases ht2; exact ⟨_, _, hq1, by rw [hr, hq1], e1, e2⟩
+
+/-! ### generated translations of the one-shot decoders (T2, function level)
+
+`Gen.Fn.v1_protocolV1_UnpackBytes`, `v2_protocolV2_UnpackBytes` and `v1_Header_Metadata` are rewritten from go/v1/v1.go, go/v2/v2.go and
+go/v1/header.go by every run: the pooled header (a fresh zero header), the call of the translated `Header.UnpackBytes` with its error handed
+on, the length guards, every slice of `data` (with `panic` where Go would panic, the v2 upper bound computed in uint32 as in the source),
+the `protocol.Packet` / `protocol.Metadata` literals (structures generated from go/packet.go and go/metadata.go), the nonce read with
+`binary.BigEndian.Uint64`, the signature `data[idx+NonceLength:]`, `gzip.Decompress` as the oracle `Gzip.decompress gz`, and (v2)
+`UnmarshalMetadata` as the model's `Metadata.unmarshalValues lower`. `roundtrip_oneshot`, `C02.decode_accepts`, C04's theorems are about the
+model's `Frame.unpackBytes`; these say it is the same function. -/
+
+/-- `func (p *protocolV1) UnpackBytes(ctx, bs) (packet *protocol.Packet, err error)` and its v2 twin as translated: the same packet
+(`GenFuncs.toModelPacket` flattens `Packet{Metadata, Body}` into the model's record and maps the `protocol.PacketType` constants to `PType`),
+the same error in the same case, no index or slice out of range — for EVERY byte string, codec and gzip oracle; `some`: never a nil packet
+without an error. For v2 the generated function lower-cases the metadata keys (`lower` = strings.ToLower, as `UnmarshalValues` does) where
+the model's decoder returns the raw pairs (see `Equiv`): equal up to `GenFuncs.lowerKeys lower`, and equal outright for `lower = id`. -/
+theorem unpackBytes_is_generated (gz : GzOracle) (lower : Bytes → Bytes) (codec : UInt8) (bs : Bytes) :
+    (Gen.Fn.v1_protocolV1_UnpackBytes gz codec bs).map (Option.map GenFuncs.toModelPacket) = (unpackBytes .v1 gz codec bs).map some ∧
+    (Gen.Fn.v2_protocolV2_UnpackBytes gz lower codec bs).map (Option.map GenFuncs.toModelPacket) =
+      (unpackBytes .v2 gz codec bs).map (fun p => some (GenFuncs.lowerKeys lower p)) ∧
+    (Gen.Fn.v2_protocolV2_UnpackBytes gz id codec bs).map (Option.map GenFuncs.toModelPacket) = (unpackBytes .v2 gz codec bs).map some :=
+  ⟨GenFuncs.v1_unpackBytes_gen gz codec bs, GenFuncs.v2_unpackBytes_gen gz lower codec bs, GenFuncs.v2_unpackBytes_gen_id gz codec bs⟩
+
+/-- `func (h Header) Metadata(ctx) *protocol.Metadata` as translated is the model's `Header.toPacket` (any body attached) -/
+theorem header_metadata_is_generated (h : Gen.Fn.V1Header) (codec : UInt8) (b : Bytes) :
+    (Gen.Fn.v1_Header_Metadata h codec).map (fun m => GenFuncs.toModelPacket { metadata := m, body := b }) =
+      .ok { Header.toPacket (GenFuncs.v1M h) codec with body := b } :=
+  GenFuncs.v1_header_metadata_gen h codec b
+
+/-- non-vacuity: the translated v1 decoder on a push frame with a 3-byte body, and on a frame cut short -/
+example : Gen.Fn.v1_protocolV1_UnpackBytes idGz 1 [0x03, 7, 0, 0, 3, 1, 2, 3] =
+    .ok (some { metadata := { type := .pushPacket, cmdCode := 7, codec := 1 }, body := [1, 2, 3] }) := by decide
+example : Gen.Fn.v1_protocolV1_UnpackBytes idGz 1 [0x03, 7, 0, 0, 3, 1, 2] = .err "invalid frame" := by decide
+
+/-- the one-shot decoders of both versions and `Header.Metadata` were inside the translatable subset in this run -/
+theorem functions_translated :
+    ["v1.Header.Metadata", "v1.protocolV1.UnpackBytes", "v2.protocolV2.UnpackBytes"].all (fun f => Gen.Fn.translated.contains f) = true := by decide
 
 end OAP.C01
